@@ -29,7 +29,7 @@ RULE = ('objects = 1..4 annotation groups, each (graphic type, 1..9 (tail 40) an
         'construction; non-trivial = distinct (type, dim, z class, dtype, n, point-count profile, NaN pattern, path)')
 ASSUMPTIONS = [
     'float32/float64 byte encodings are numpy`s (tobytes / frombuffer, little endian); values are opaque cells in the model',
-    'integer coordinates are generated below 2^24 in magnitude so that the constructor's cast to float32 (astype(float32), undocumented, lossy from 2^24) is exact; larger integers are rounded silently and are NOT covered',
+    'integer coordinates are generated below 2^24 in magnitude so that the cast the constructor applies (astype(float32), undocumented, lossy from 2^24) is exact; larger integers are rounded silently and are NOT covered',
     'measurement values are single precision by the IOD (FloatingPointValues is OF): the oracle compares with float32(input)',
     'no negative zero among z coordinates (numpy.unique identifies -0.0 and 0.0; cell equality in the model is identity)',
     'NaN payloads are not distinguished: an absent measurement is any NaN',
